@@ -11,6 +11,7 @@ CONSTANTS
   TriplePer = 2
   OverlapPer = 2
   Doubling = FALSE
+  PairsFirstAll = TRUE
   GroupsExhaustive = FALSE
   Salt = 0
 INIT Init
